@@ -95,6 +95,8 @@ type Interp struct {
 	pkg     *types.Package
 	decls   map[*types.Func]*ast.FuncDecl
 	globals map[types.Object]*Cell
+	inits   map[types.Object]ast.Expr // initialisers of the package's own variables, evaluated on first use
+	initing map[types.Object]bool
 	out     *strings.Builder
 	steps   int
 	hooks   map[ast.Node]func(it *Interp, cl *Closure, args []Value) ([]Value, bool)
@@ -160,11 +162,23 @@ func newInterpFor(r *Repo, sub string) *Interp {
 func newInterpRaw(info *types.Info, pkg *types.Package, files []*ast.File, fset *token.FileSet, posOf func(token.Pos) string) *Interp {
 	it := &Interp{info: info, fset: fset, pkg: pkg, decls: map[*types.Func]*ast.FuncDecl{}, globals: map[types.Object]*Cell{},
 		out: &strings.Builder{}, hooks: map[ast.Node]func(*Interp, *Closure, []Value) ([]Value, bool){}, natives: map[string]func(*Interp, []Value) []Value{}, posOf: posOf}
+	it.inits, it.initing = map[types.Object]ast.Expr{}, map[types.Object]bool{}
 	for _, f := range files {
 		for _, d := range f.Decls {
 			if fd, ok := d.(*ast.FuncDecl); ok {
 				if o, ok := info.Defs[fd.Name].(*types.Func); ok {
 					it.decls[o] = fd
+				}
+			}
+			if gd, ok := d.(*ast.GenDecl); ok && gd.Tok == token.VAR {
+				for _, sp := range gd.Specs {
+					if vs, ok := sp.(*ast.ValueSpec); ok && len(vs.Values) == len(vs.Names) {
+						for i, id := range vs.Names {
+							if o := info.Defs[id]; o != nil {
+								it.inits[o] = vs.Values[i]
+							}
+						}
+					}
 				}
 			}
 		}
@@ -742,6 +756,10 @@ func valuesEqual(a, b Value) bool {
 		if _, isNil := b.(Nil); isNil {
 			return x == nil
 		}
+	case *Native:
+		if _, isNil := b.(Nil); isNil {
+			return x == nil
+		}
 	case *Ext:
 		if _, isNil := b.(Nil); isNil {
 			return false
@@ -1017,6 +1035,30 @@ func (it *Interp) eval(e ast.Expr, env *Env) Value {
 				return c.v
 			}
 			if o.Pkg() == it.pkg && o.Parent() == it.pkg.Scope() {
+				// a table of the package itself (composite literals of plain data): its initialiser is
+				// evaluated once, on first use; anything the interpreter cannot evaluate stays opaque
+				if init, ok := it.inits[o]; ok && !it.initing[o] {
+					if _, isLit := ast.Unparen(init).(*ast.CompositeLit); isLit {
+						it.initing[o] = true
+						var val Value
+						func() {
+							defer func() {
+								if p := recover(); p != nil {
+									if _, und := p.(undecided); !und {
+										panic(p)
+									}
+									val = nil
+								}
+							}()
+							val = it.eval(init, newEnv(nil))
+						}()
+						it.initing[o] = false
+						if val != nil {
+							it.globals[o] = &Cell{val}
+							return val
+						}
+					}
+				}
 				return &Ext{"package variable " + o.Name()}
 			}
 			it.fail(e, "variable %s has no value in the model environment", x.Name)
@@ -1323,20 +1365,41 @@ func (it *Interp) compositeLit(x *ast.CompositeLit, env *Env) Value {
 		return o
 	case *types.Slice:
 		s := &SliceV{elems: []Value{}}
+		next := 0
 		for _, el := range x.Elts {
-			if _, ok := el.(*ast.KeyValueExpr); ok {
-				it.fail(x, "keyed slice literal")
+			val := el
+			if kv, ok := el.(*ast.KeyValueExpr); ok {
+				// keyed element: the index is a constant
+				k, ok := it.eval(kv.Key, env).(int64)
+				if !ok || k < 0 || k > 1<<20 {
+					it.fail(x, "keyed slice literal with a key that is not a small constant")
+				}
+				next, val = int(k), kv.Value
 			}
-			s.elems = append(s.elems, it.evalCopy(el, env))
+			for len(s.elems) <= next {
+				s.elems = append(s.elems, it.zero(u.Elem()))
+			}
+			s.elems[next] = it.evalCopy(val, env)
+			next++
 		}
 		return s
 	case *types.Array:
 		s := it.zero(t).(*SliceV)
-		for i, el := range x.Elts {
-			if _, ok := el.(*ast.KeyValueExpr); ok {
-				it.fail(x, "keyed array literal")
+		next := 0
+		for _, el := range x.Elts {
+			val := el
+			if kv, ok := el.(*ast.KeyValueExpr); ok {
+				k, ok := it.eval(kv.Key, env).(int64)
+				if !ok || k < 0 || int(k) >= len(s.elems) {
+					it.fail(x, "keyed array literal with a key outside the array")
+				}
+				next, val = int(k), kv.Value
 			}
-			s.elems[i] = it.evalCopy(el, env)
+			if next >= len(s.elems) {
+				it.fail(x, "array literal longer than the array")
+			}
+			s.elems[next] = it.evalCopy(val, env)
+			next++
 		}
 		return s
 	case *types.Map:
@@ -1941,4 +2004,21 @@ func (it *Interp) structEqual(a, b Value) bool {
 		}
 	}
 	return true
+}
+
+// zeroLike: the zero value of the same kind as v.
+func (it *Interp) zeroLike(v Value) Value {
+	switch x := v.(type) {
+	case *Obj:
+		if x != nil && x.t != nil {
+			return it.newObj(x.t)
+		}
+	case int64:
+		return int64(0)
+	case string:
+		return ""
+	case bool:
+		return false
+	}
+	return Nil{}
 }
